@@ -111,30 +111,65 @@ def run_case(case):
 		if kind == 'mutate':
 			sl = SignatureList(list(plain), ks)
 			ref = list(plain)
-			for op in case['ops']:
-				x = np.array([op[2] % (4 ** ks.k)], dtype=dt) if len(op) > 2 else None
-				try:
-					if op[0] == 'set':
-						ref[op[1]] = x
-					elif op[0] == 'del':
-						del ref[op[1]]
-					else:
-						ref.insert(op[1], x)
-					e = None
-				except IndexError:
-					e = 'IndexError'
-				try:
-					if op[0] == 'set':
-						sl[op[1]] = x
-					elif op[0] == 'del':
-						del sl[op[1]]
-					else:
-						sl.insert(op[1], x)
-					a = None
-				except IndexError:
-					a = 'IndexError'
-				if e != a or len(sl) != len(ref) or not all(np.array_equal(p, q) for p, q in zip(sl, ref)):
-					return {'ok': False, 'expected': [r.tolist() for r in ref], 'actual': [np.asarray(r).tolist() for r in sl]}
+			mk = lambda v: np.array(sorted({(v + 7 * t) % (4 ** ks.k) for t in range(v % 4)}), dtype=dt)
+
+			def observe(step):
+				# every observable view of the list must agree with the plain-list reference
+				views = {'len': len(sl) == len(ref), 'iter': sigarray_eq(list(sl), ref),
+				         'getitem': all(np.array_equal(sl[i], ref[i]) for i in range(len(ref))),
+				         'sizes': list(map(int, sl.sizes())) == [len(r) for r in ref],
+				         'sizeof': all(int(sl.sizeof(i)) == len(ref[i]) for i in range(len(ref))),
+				         'eq-list': bool(sl == SignatureList(list(ref), ks)) and not bool(sl != SignatureList(list(ref), ks)),
+				         'eq-array': bool(sl == SignatureArray(list(ref), ks, dtype=dt)) and bool(SignatureArray(list(ref), ks, dtype=dt) == sl),
+				         'neq-extra': not bool(sl == SignatureList(list(ref) + [mk(5)], ks))}
+				if case.get('dump') and len(ref):
+					from gambit.sigs.hdf5 import dump_signatures_hdf5, load_signatures_hdf5
+					from gambit.sigs import AnnotatedSignatures, SignaturesMeta
+					f = os.path.join(tmp, f'd{step}.h5')
+					dump_signatures_hdf5(f, AnnotatedSignatures(sl, [str(i) for i in range(len(sl))], SignaturesMeta()))
+					with load_signatures_hdf5(f) as back:
+						views['dump'] = sigarray_eq(list(back), ref)
+				bad = [k for k, v in views.items() if not v]
+				return bad
+			for step, op in enumerate(case['ops']):
+				kindop = op[0]
+				x = mk(op[2]) if len(op) > 2 and not isinstance(op[2], list) else None
+				xs = [mk(v) for v in op[2]] if len(op) > 2 and isinstance(op[2], list) else None
+				idx = slice(*op[1]) if isinstance(op[1], list) else op[1]
+
+				def apply(t):
+					if kindop == 'set':
+						t[idx] = x
+					elif kindop == 'setslice':
+						t[idx] = xs
+					elif kindop in ('del', 'delslice'):
+						del t[idx]
+					elif kindop == 'ins':
+						t.insert(idx, x)
+					elif kindop == 'append':
+						t.append(x)
+					elif kindop == 'extend':
+						t.extend(xs)
+					elif kindop == 'pop':
+						t.pop(idx)
+					elif kindop == 'reverse':
+						t.reverse()
+					elif kindop == 'iadd':
+						t += xs
+				res = []
+				for t in (ref, sl):
+					try:
+						apply(t)
+						res.append(None)
+					except (IndexError, ValueError) as e2:
+						res.append(type(e2).__name__)
+				if res[0] != res[1]:
+					return {'ok': False, 'expected': f'step {step} {op}: {res[0]}', 'actual': res[1]}
+				if case.get('observe', 'each') == 'each' or step == len(case['ops']) - 1 or (case.get('observe') == 'first' and step == 0):
+					bad = observe(step)
+					if bad:
+						return {'ok': False, 'expected': {'after': list(case['ops'][:step + 1]), 'list': [r.tolist() for r in ref]},
+						        'actual': {'disagreeing_views': bad, 'iter': [np.asarray(r).tolist() for r in sl], 'sizes': np.asarray(sl.sizes()).tolist()}}
 			return {'ok': True, 'expected': 'list semantics', 'actual': 'ok'}
 		if kind == 'eq':
 			a = _mk(case['coll'], plain, ks, tmp)
@@ -186,12 +221,20 @@ def cases(tier, seed):
 				if all(lo <= x <= hi for x in v):
 					yield {'kind': 'index', 'coll': coll, 'n': n, 'index': {'t': 'array', 'dt': dt, 'v': v}}
 			yield {'kind': 'index', 'coll': coll, 'n': n, 'index': {'t': 'npint', 'dt': dt, 'v': -1}}
-	for _ in range(30 if tier == 'quick' else 300):
+	for it in range(120 if tier == 'quick' else 1500):
 		n = rnd.randrange(0, 5)
 		ops = []
+		pre = rnd.random() < .3   # start with an observation of the untouched list (op that changes nothing)
+		if pre:
+			ops.append(('extend', 0, []))
 		for _ in range(rnd.randrange(1, 7)):
-			ops.append(rnd.choice([('set', rnd.randrange(-6, 6), rnd.randrange(64)), ('del', rnd.randrange(-6, 6)), ('ins', rnd.randrange(-7, 7), rnd.randrange(64))]))
-		yield {'kind': 'mutate', 'n': n, 'ops': ops, 'seed': rnd.randrange(1000)}
+			sl3 = [rnd.choice([None, 0, 1, 2, -1, -2, 5]), rnd.choice([None, 0, 1, 2, 3, -1, 5]), rnd.choice([None, None, 1, 2, -1])]
+			ops.append(rnd.choice([
+				('set', rnd.randrange(-6, 6), rnd.randrange(64)), ('del', rnd.randrange(-6, 6)), ('ins', rnd.randrange(-7, 7), rnd.randrange(64)),
+				('setslice', sl3, [rnd.randrange(64) for _ in range(rnd.randrange(0, 4))]), ('delslice', sl3),
+				('append', 0, rnd.randrange(64)), ('extend', 0, [rnd.randrange(64) for _ in range(rnd.randrange(0, 3))]),
+				('pop', rnd.randrange(-3, 3)), ('reverse', 0), ('iadd', 0, [rnd.randrange(64) for _ in range(rnd.randrange(0, 3))])]))
+		yield {'kind': 'mutate', 'n': n, 'ops': ops, 'seed': rnd.randrange(1000), 'observe': rnd.choice(['each', 'each', 'last', 'first']), 'dump': it % 6 == 0}
 	for coll, coll2 in itertools.product(colls, colls):
 		for variant in ('same', 'changed', 'shorter', 'kspec'):
 			yield {'kind': 'eq', 'coll': coll, 'coll2': coll2, 'n': rnd.choice([0, 1, 3]), 'variant': variant, 'seed': rnd.randrange(1000)}
@@ -210,5 +253,5 @@ def bounded(tier, seed):
 			if len(failures) >= 5:
 				break
 	return {'tool': 'real SignatureList / SignatureArray / HDF5Signatures against plain lists with NumPy index rules',
-	        'bound': 'collections of 0, 1, 4 signatures (and up to 300 for narrow index dtypes) x every int, a grid of slices, index lists/arrays of 6 dtypes, masks; mutation histories of <= 6 steps; equality variants',
+	        'bound': 'collections of 0, 1, 4 signatures (and up to 300 for narrow index dtypes) x every int, a grid of slices, index lists/arrays of 6 dtypes, masks; mutation histories of <= 7 steps over set/del/insert/slice assignment/slice delete/append/extend/pop/reverse/+= with every observable view (len, iteration, indexing, sizes, sizeof, ==/!= against list- and array-backed copies, HDF5 dump/load) compared against a plain list after each step, after the first step, or only at the end; equality variants',
 	        'cases': n, 'failures': failures, 'samples': sample}
